@@ -159,6 +159,20 @@ def run(ctx):
             rp = vlib.save_replay(ctx, t.replace(":", "_"), dict(family="throttle", property=prop, clause=t,
                                   script=scripts[si], event=line - 1 - starts[si], observed=events[line - 1]))
             violations.append(dict(key=t, replay=rp, what="script %d (%s) event %d" % (si, scripts[si]["origin"], line - 1 - starts[si])))
+    # ---- wiring in cmd/thermal-recorder/main.go with the real clock (one-sided, generous margins)
+    import fam_e2e
+    binp = ctx.go_test_build("./cmd/thermal-recorder", "tr.test")
+    wiring = fam_e2e.c05_wiring(ctx, binp)
+    for wi, wr in enumerate(wiring):
+        bad = None
+        if prop == "C05" and wr["frames_stored"] > wr["bucket_frames"] + 2 + wr["settings"]["preview"] * wr["fps"] + 1:
+            bad = "C05:wiring-budget-exceeded"
+        if prop == "C06" and wr["frames_sent"] > 3 * wr["bucket_frames"] and wr["throttle_events"] < 1:
+            bad = "C06:wiring-no-throttle-event"
+        if bad and bad not in seen:
+            seen.add(bad)
+            rp = vlib.save_replay(ctx, bad.replace(":", "_"), dict(family="throttle", property=prop, clause=bad, run=wr))
+            violations.append(dict(key=bad, replay=rp, what=json.dumps({k: wr[k] for k in ("fps", "bucket_frames", "frames_stored", "throttle_events")})))
     rej, acc = conform(ctx, trace)
     conf = dict(events_accepted=acc, rejected_at=None)
     if rej is not None:
@@ -181,7 +195,8 @@ def run(ctx):
                     failed_base_starts=sfail, evaluations=len(scripts), distinct_nontrivial=distinct,
                     rule="transition cover of ThrReplay + seeded schedules (idle-then-burst, churn at the refill boundary, start "
                          "failures) + real MotionProcessor in front; distinct by (cfg, steps)",
-                    conformance=conf, clauses_of_other_properties_fired=others)
+                    conformance=conf, clauses_of_other_properties_fired=others,
+                    main_wiring_runs=[{k: wr[k] for k in ("fps", "bucket_frames", "frames_sent", "frames_stored", "throttle_events")} for wr in wiring])
     return vlib.finish(ctx, violations, coverage, ASSUME)
 
 
